@@ -250,26 +250,65 @@ def run(chk):
         st = {sym.show(p["lv"]).split("[")[0]: p for p in cps if p["kind"] == "store" and p["loops"]}
         problems = []
         this = sym.sym("this")
-        A1 = st.get("this->ks1_raw")
-        A2 = st.get("this->ks")
         base_t = sym.arrow(this, "base")
-        if A1 is None or A2 is None:
-            problems.append("table-filling loops not found (%s)" % sorted(st))
-        else:
-            p1 = A1["loops"][0]["var"]
-            want1 = sym.padd(cn["ks0_raw"], sym.mul(base_t, p1))
-            # the stride may be written as the field this->base or as the value the constructor stores into it
-            bst0 = [p for p in cps if p["kind"] == "store" and p["lv"] == base_t and not p["loops"]]
-            base_v = bst0[0]["val"] if len(bst0) == 1 else base_t
-            same1 = sym.subst(A1["val"], {base_t: base_v}) == sym.subst(want1, {base_t: base_v})
-            if not same1 or (A1["loops"][0]["lo"], A1["loops"][0]["hi"]) != (ZERO, sym.mul(cn["n"], cn["t"])):
-                problems.append("ks1_raw[p] = %s over [%s,%s); expected ks0_raw + base*p over [0,n*t)" % (
-                    sym.show(A1["val"]), sym.show(A1["loops"][0]["lo"]), sym.show(A1["loops"][0]["hi"])))
-            p2 = A2["loops"][0]["var"]
-            want2 = sym.padd(sym.arrow(this, "ks1_raw"), sym.mul(cn["t"], p2))
-            if A2["val"] != want2 or (A2["loops"][0]["lo"], A2["loops"][0]["hi"]) != (ZERO, cn["n"]):
-                problems.append("ks[p] = %s over [%s,%s); expected ks1_raw + t*p over [0,n)" % (
-                    sym.show(A2["val"]), sym.show(A2["loops"][0]["lo"]), sym.show(A2["loops"][0]["hi"])))
+        from sa import bounds
+        # each table statement A[e] = &B[f] (index computed or carried by walking pointers, loops fused or not): f == stride * e
+        # identically, and the indices e visit [0, extent of A) exactly once for every (n, t) -- enumerated for n, t in 1..3
+        import itertools
+        from sa.secretflow import eval_term
+        p2f = {p["val"]: p["lv"] for p in cps if p["kind"] == "store" and not p["loops"] and p["op"] == "=" and p["lv"][0] == "fld"
+               and p["val"][0] == "sym"}
+        bst0 = [p for p in cps if p["kind"] == "store" and p["lv"] == base_t and not p["loops"]]
+        base_v = bst0[0]["val"] if len(bst0) == 1 else base_t
+        want = {"ks1_raw": ("ks0_raw", base_v, sym.mul(cn["n"], cn["t"])), "ks": ("ks1_raw", cn["t"], cn["n"])}
+        for A_, (B_, stride, extent) in want.items():
+            sts = [p for p in cps if p["kind"] == "store" and p["loops"] and p["lv"][0] == "idx" and p["lv"][1] == sym.arrow(this, A_)]
+            if not sts:
+                problems.append("no statement fills the table %s" % A_)
+                continue
+            seen = {}
+            for p in sts:
+                e_ = sym.trip_counts_nonneg(p["lv"][2])
+                val = sym.trip_counts_nonneg(sym.subst(p["val"], p2f))
+                bs, off = bounds.split_base_offset(val)
+                if bs != sym.arrow(this, B_):
+                    problems.append("%s[%s] points into %s, expected into %s" % (A_, sym.show(e_), sym.show(bs) if bs else sym.show(val)[:40], B_))
+                    continue
+                # fields read back inside the constructor are the values it stored into them
+                f2v = {q["lv"]: q["val"] for q in cps if q["kind"] == "store" and not q["loops"] and not q["guards"] and q["op"] == "="
+                       and q["lv"][0] == "fld" and q["lv"][1] == sym.idx(this, ZERO) and q["val"][0] in ("sym", "op", "poly", "int")}
+                norm_ = lambda t_: sym.subst(sym.subst(t_, f2v), f2v)
+                st_v = norm_(stride)
+                e_ = norm_(e_)
+                if sym.sub(norm_(off), sym.mul(st_v, e_)) != ZERO:
+                    problems.append("%s[%s] = %s + %s, expected %s + %s*(%s)" % (A_, sym.show(e_), B_, sym.show(off), B_, sym.show(stride), sym.show(e_)))
+                    continue
+                for nv, tv in itertools.product((1, 2, 3), repeat=2):
+                    env0 = {cn["n"]: nv, cn["t"]: tv}
+
+                    def go(k, env):
+                        if k == len(p["loops"]):
+                            x = eval_term(e_, env)
+                            if x is None:
+                                chk.broken("LweKeySwitchKey constructor: table index %s not evaluable" % sym.show(e_))
+                            seen.setdefault((nv, tv), []).append(x)
+                            return
+                        l_ = p["loops"][k]
+                        lo_, hi_, st_ = eval_term(sym.trip_counts_nonneg(l_["lo"]), env), eval_term(sym.trip_counts_nonneg(l_["hi"]), env), sym.const_value(l_["step"])
+                        if lo_ is None or hi_ is None or not st_ or st_ <= 0 or l_["cmp"] not in ("<", "<="):
+                            chk.broken("LweKeySwitchKey constructor: loop at line %s not evaluable" % l_.get("l"))
+                        x = lo_
+                        while (x < hi_) if l_["cmp"] == "<" else (x <= hi_):
+                            e2 = dict(env)
+                            e2[l_["var"]] = x
+                            go(k + 1, e2)
+                            x += st_
+                    go(0, env0)
+            for (nv, tv), xs in sorted(seen.items()):
+                ext_v = eval_term(extent, {cn["n"]: nv, cn["t"]: tv})
+                if sorted(xs) != list(range(ext_v)):
+                    problems.append("with n = %d, t = %d the statements fill entries %s of %s, which has %d entries" % (nv, tv, sorted(xs)[:8], A_, ext_v))
+                    break
         basest = [p for p in cps if p["kind"] == "store" and p["lv"] == base_t]
         if len(basest) != 1 or bits.pow2_exp(basest[0]["val"]) != cn["basebit"]:
             problems.append("base is not 1 << basebit")
